@@ -1,28 +1,111 @@
 import BM.Driver.Codec
+import BM.Spec.Oracles
+import Std.Data.HashMap
 namespace BM.Driver
-open BM BM.Html
+open BM BM.Html BM.Spec
 
-def handleLine (line : String) : String :=
+structure State where
+  policies : Std.HashMap Nat Policy := {}
+
+/-- css.GetDefaultHandler twin (filled in by BM.CssHandlers once modelled) -/
+def dfltHandler : Bytes → Bytes → Bool := fun _ _ => false
+
+/-! per-property projections of an output: a correspondence mismatch is attributed to a
+    property only if the part of the output that property speaks about differs -/
+
+def tagSkeleton (ts : List Token) : String :=
+  String.intercalate ";" ((ts.filter fun t => t.tt != .text).map fun t =>
+    (match t.tt with
+     | .start => "S" | .end_ => "E" | .selfClosing => "X" | .comment => "C" | .doctype => "D"
+     | .text => "T") ++ hexField t.data)
+
+def attrsWhere (ts : List Token) (f : Bytes → Attr → Bool) : String :=
+  String.intercalate ";" ((ts.filter isTag).map fun t =>
+    hexField t.data ++ "(" ++ encAttrs (t.attrs.filter (f t.data)) ++ ")")
+
+def projection (prop : String) (out : Bytes) : String :=
+  let ts := tokenize out
+  match prop with
+  | "C01" => tagSkeleton ts
+  | "C02" => attrsWhere ts fun _ _ => true
+  | "C03" => attrsWhere ts fun el a => isUrlPosition el a.key
+  | "C05" => tagSkeleton (ts.filter fun t => isScriptStyle t.data) ++ "|" ++
+      String.intercalate "," ((markers out).map hexField)
+  | "C06" => hexField (textOf ts)
+  | "C08" => hexField (textOf ts)
+  | "C09" => tagSkeleton (ts.filter isTag)
+  | "C10" => attrsWhere ts fun _ a => a.key == b!"style"
+  | "C11" => attrsWhere (ts.filter fun t => isHrefEl t.data) fun _ a =>
+      a.key == b!"rel" || a.key == b!"target" || a.key == b!"href"
+  | "C12" => attrsWhere ts fun _ a => a.key == b!"crossorigin" || a.key == b!"sandbox"
+  | _ => hexField out
+
+def allProps : List String :=
+  ["C01", "C02", "C03", "C05", "C06", "C08", "C09", "C10", "C11", "C12"]
+
+/-- oracles that can be judged from (policy, input, output) alone -/
+def oracle (prop : String) (p : Policy) (inp out : Bytes) : Bool :=
+  match prop with
+  | "C01" => p.allowUnsafe || oracleC01 p out
+  | "C02" => p.allowUnsafe || oracleC02 p inp out
+  | "C03" => p.allowUnsafe || oracleC03 p out
+  | "C05" => p.allowUnsafe || oracleC05 inp out
+  | "C06" => oracleC06 p inp out
+  | "C08" => oracleC08 p inp out
+  | "C09" => p.allowUnsafe || oracleC09 inp out
+  | "C11" => p.allowUnsafe || oracleC11 p out
+  | "C12" => p.allowUnsafe || oracleC12 p out
+  | _ => true
+
+def joinOrDash (xs : List String) : String := if xs.isEmpty then "-" else String.intercalate "," xs
+
+def handleLine (st : State) (line : String) : State × String :=
   match line.splitOn " " with
   | ["tok", inp, impl] =>
     match unhexField inp with
     | some b =>
       let r := encTokens (tokenize b)
-      if r == impl then "ok" else "DIFF " ++ r
-    | none => "bad-hex"
-  | _ => "bad-op"
+      (st, if r == impl then "ok" else "DIFF " ++ r)
+    | none => (st, "bad-hex")
+  | ["policy", pid, ops, dump] =>
+    match pid.toNat?, parseOps ops, unhexField dump with
+    | some pid, some ops, some dump =>
+      let p := applyOps dfltHandler newPolicy ops
+      let d := dumpPolicy p
+      ({ st with policies := st.policies.insert pid p },
+        if strBytes d == dump then "ok" else "DIFF " ++ d)
+    | _, _, _ => (st, "bad-policy")
+  | ["san", pid, inp, impl] =>
+    match pid.toNat?.bind (st.policies.get? ·), unhexField inp with
+    | some p, some b =>
+      let modelPanics := p.panics b
+      if impl == "PANIC" then
+        (st, if modelPanics then "ok-panic proj=- orc=C14" else "DIFF-panic proj=all orc=C14")
+      else match unhexField impl with
+      | none => (st, "bad-san")
+      | some impl =>
+        if modelPanics then (st, "DIFF-modelpanic proj=all orc=-") else
+        let out := p.sanitize b
+        let projs := if out == impl then [] else
+          (allProps.filter fun pr => projection pr out != projection pr impl)
+        let orcs := allProps.filter fun pr => !oracle pr p b impl
+        (st, (if out == impl then "ok" else "DIFF:" ++ hexField out) ++
+             " proj=" ++ joinOrDash projs ++ " orc=" ++ joinOrDash orcs)
+    | _, _ => (st, "bad-san")
+  | _ => (st, "bad-op")
 
-partial def loop (h : IO.FS.Stream) (out : IO.FS.Stream) : IO Unit := do
+partial def loop (h : IO.FS.Stream) (out : IO.FS.Stream) (st : State) : IO Unit := do
   let line ← h.getLine
   if line.isEmpty then return ()
-  let l := (line.dropRightWhile fun c => c == '\n' || c == '\r')
-  out.putStrLn (handleLine l)
-  loop h out
+  let l := (line.dropEndWhile fun c => c == '\n' || c == '\r').toString
+  let (st', r) := handleLine st l
+  out.putStrLn r
+  loop h out st'
 
 def main : IO Unit := do
   let stdin ← IO.getStdin
   let stdout ← IO.getStdout
-  loop stdin stdout
+  loop stdin stdout {}
   stdout.flush
 
 end BM.Driver
